@@ -263,6 +263,13 @@ pub fn tamper_cases(r: &mut Rng, b: &Built, reps: usize) -> Vec<Case> {
             bump_ext(&mut c[i], r);
             add(format!("finalpoly-{i}"), '0', p, vd.clone());
         }
+        // public-input vector of the wrong length (hash_no_pad does not separate [x] from [x, 0]; the native
+        // verifier rejects by shape; the witness assignment must not accept it by truncation / padding)
+        {
+            let mut p = b.proof.clone(); p.public_inputs.push(F::ZERO); add("publicinput-append0".into(), '0', p, vd.clone());
+            let mut p = b.proof.clone(); p.public_inputs.push(F::from_canonical_u64(1 + r.below(1000))); add("publicinput-appendx".into(), '0', p, vd.clone());
+            let mut p = b.proof.clone(); if p.public_inputs.pop().is_some() { add("publicinput-droplast".into(), '0', p, vd.clone()); }
+        }
         // public input
         if !b.proof.public_inputs.is_empty() {
             let mut p = b.proof.clone();
@@ -403,7 +410,10 @@ pub fn run(seed: u64, tier: &str, w: &mut dyn Write) -> usize {
             for c in cases {
                 let nat = native_verdict(&b.data.common, &c.vd, &c.p);
                 let out = run_outer(&outer, &c.p, &c.vd, true);
-                let agree = (nat == "ok") == out.ok;
+                // an outer proof that was produced AND verified is an acceptance by the in-circuit verifier, also
+                // when the public inputs it re-exposes are not the ones handed in (e.g. a silently truncated vector)
+                let accepted = out.ok || out.what.starts_with("pis:");
+                let agree = (nat == "ok") == accepted;
                 let unsat = out.unsat.map(|(row, g)| format!(" unsat=row{row}:{g}")).unwrap_or_default();
                 writeln!(w, "c06 {name} {} = {} # exp={} native={} outer={}{} outer_rows={}", c.name, agree as u8, c.exp, nat,
                          out.what, unsat, outer.data.common.degree()).unwrap();
